@@ -25,6 +25,15 @@ inline void generate(Case& c, Rng& rng, const WLEntry& wl, bool thorough, long m
   c.nObjs           = c.conflicts ? (unsigned)rng.pick({1, 2, 4, 16, 64, 256}) : 0;
   unsigned nnMax    = c.conflicts ? (unsigned)rng.pick({0, 1, 2, 3, 5, 8, 16}) : 0;
   unsigned vabortPct = (c.conflicts && c.threads > 1) ? (unsigned)rng.pick({0, 0, 2, 10, 30}) : 0;
+  // abort storm: every item aborts voluntarily on its first K attempts, so for a while *all* activity of
+  // *all* threads consists of aborted attempts (nobody commits) - the situation in which an executor that
+  // does not count aborted attempts as work would let the termination detector finish early
+  unsigned stormK = 0;
+  if (c.conflicts && c.threads > 1 && rng.below(5) == 0) {
+    stormK   = (unsigned)rng.pick({4, 12, 40});
+    maxItems = std::min(maxItems, (unsigned)rng.pick({8, 60, 300}));
+    nInit    = std::min(nInit, maxItems);
+  }
   unsigned delayPct  = (unsigned)rng.pick({0, 0, 1, 5, 20});
   unsigned beforePct = (unsigned)rng.pick({0, 30, 100});
   unsigned prioRange = (unsigned)rng.pick({1, 2, 8, 64, 1000, 100000});
@@ -96,6 +105,8 @@ inline void generate(Case& c, Rng& rng, const WLEntry& wl, bool thorough, long m
     if (!c.conflicts)
       p.pushBefore = (rng.below(100) < beforePct) ? (uint16_t)rng.below(p.childCount + 1) : 0;
     p.vaborts    = (rng.below(100) < vabortPct) ? (uint8_t)rng.range(1, 2) : 0;
+    if (stormK)
+      p.vaborts = (uint8_t)stormK;
     p.allocBytes = c.pia ? (uint16_t)rng.pick({0, 1, 8, 100, 1000, 5000}) : 0;
     p.delayKind  = (rng.below(100) < delayPct) ? (uint8_t)rng.range(1, 3) : 0;
     if (p.delayKind == 2 && rng.below(4))
